@@ -1,5 +1,7 @@
 import Prom.Lemmas.C06Conc
 import Prom.Lemmas.RealTime
+import Prom.Lemmas.C01Mono
+import Std.Data.String.ToNat
 /-
 C06 / C14 — the commit order of the registry machine is consistent with real time.
 
@@ -50,6 +52,16 @@ theorem rStep_shape {s s' : RM.St} {e : Ev} (h : RM.step s e = .ok s') :
         · rw [guard_ok] at h; obtain ⟨_, h⟩ := h
           rw [guard_ok] at h; obtain ⟨_, h⟩ := h
           cases h; exact ⟨th, _, hth, hp, rfl, rfl, rfl, rfl, .inr ⟨_, _, rfl⟩⟩
+        · -- unregister: the pre-check under the read lock (commits iff it fails), or the write lock at once
+          split at h
+          · rw [guard_ok] at h; obtain ⟨_, h⟩ := h
+            rw [guard_ok] at h; obtain ⟨_, h⟩ := h
+            split at h
+            · cases h; exact ⟨th, _, hth, hp, rfl, rfl, rfl, rfl, .inr ⟨_, _, rfl⟩⟩
+            · cases h; exact ⟨th, _, hth, hp, rfl, rfl, rfl, rfl, .inl rfl⟩
+          · rw [guard_ok] at h; obtain ⟨_, h⟩ := h
+            rw [guard_ok] at h; obtain ⟨_, h⟩ := h
+            cases h; exact ⟨th, _, hth, hp, rfl, rfl, rfl, rfl, .inr ⟨_, _, rfl⟩⟩
         · rw [guard_ok] at h; obtain ⟨_, h⟩ := h
           rw [guard_ok] at h; obtain ⟨_, h⟩ := h
           cases h; exact ⟨th, _, hth, hp, rfl, rfl, rfl, rfl, .inr ⟨_, _, rfl⟩⟩
@@ -59,6 +71,15 @@ theorem rStep_shape {s s' : RM.St} {e : Ev} (h : RM.step s e = .ok s') :
           cases h; exact ⟨th, _, hth, hp, rfl, rfl, rfl, rfl, .inl rfl⟩
         · rw [guard_ok] at h; obtain ⟨_, h⟩ := h
           cases h; exact ⟨th, _, hth, hp, rfl, rfl, rfl, rfl, .inl rfl⟩
+      · -- unrRheld: the read unlock of the pre-check (complete, or on to the write lock)
+        rw [guard_ok] at h; obtain ⟨_, h⟩ := h
+        split at h
+        · cases h; exact ⟨th, _, hth, hp, rfl, rfl, rfl, rfl, .inl rfl⟩
+        · cases h; exact ⟨th, _, hth, hp, rfl, rfl, rfl, rfl, .inl rfl⟩
+      · -- unrNeedW: the write-locked section after the pre-check
+        rw [guard_ok] at h; obtain ⟨_, h⟩ := h
+        rw [guard_ok] at h; obtain ⟨_, h⟩ := h
+        cases h; exact ⟨th, _, hth, hp, rfl, rfl, rfl, rfl, .inr ⟨_, _, rfl⟩⟩
 
 /-- an accepted call mark: the thread was idle; the log is unchanged, the thread keeps program and
     call index, and its call is open afterwards -/
@@ -246,5 +267,67 @@ theorem rRun_real_time {s s' : RM.St} (h' : RRun s s') {t i t' i' : Nat} {th : T
   refine (rRun_ext h').order (t := t) (i := i) (t' := t') (i' := i') hth hret (rView_no_entry hno) ?_ ?_
   · rw [rView_log_getElem? hx, hxt.1, hxt.2]
   · rw [rView_log_getElem? hy, hyt.1, hyt.2]
+
+/-- a run accepted item by item is a continuation -/
+theorem runItems_rRun {s s' : RM.St} {tr : List Item} {n : Nat} (h : runItems RM.item s tr n = .ok s') :
+    RRun s s' := by
+  induction tr generalizing s n with
+  | nil => simp only [runItems, Except.ok.injEq] at h; subst h; exact .init
+  | cons it r ih =>
+    simp only [runItems] at h
+    split at h
+    · next s1 h1 => exact RRun.trans (.step .init h1) (ih h)
+    · cases h
+
+/-! closed facts about the literals of the example runs (`Props/C06.unregister_precheck_accepted`):
+`String.splitOn` and `String.toNat?` do not reduce, the first is unrolled on the literals
+(`split_on_lit`), the second goes through `Nat.toNat?_repr` -/
+open Prom.C01 in
+theorem splitOn_unreg_0 : "unreg:0".splitOn ":" = ["unreg", "0"] := by split_on_lit
+open Prom.C01 in
+theorem splitOn_reg_0 : "reg:0".splitOn ":" = ["reg", "0"] := by split_on_lit
+theorem repr_0 : Nat.repr 0 = "0" := by decide +kernel
+theorem repr_1 : Nat.repr 1 = "1" := by decide +kernel
+theorem toNat_0 : "0".toNat? = some 0 := by rw [← repr_0]; exact Nat.toNat?_repr 0
+/-- the program word `unreg:0` is the unregister of collector 0 -/
+theorem parseOp_unreg_0 : parseOp "unreg:0" = some (.unregister 0) := by
+  simp [parseOp, opName, opArg, splitOn_unreg_0, toNat_0]
+/-- the program word `reg:0` is the register of collector 0 -/
+theorem parseOp_reg_0 : parseOp "reg:0" = some (.register 0) := by
+  simp [parseOp, opName, opArg, splitOn_reg_0, toNat_0]
+
+/-- one thread, `unreg:0` on the empty registry: the collector is looked up under the READ lock, it is
+    not registered, the call returns the error - no write lock is taken -/
+def unregAbsentTrace : List Item :=
+  [.call 0 "0" "unreg:0",
+   .ev ⟨0, "R", "lk", "Acquire", 0, 0, 0, true⟩, .ev ⟨0, "r", "lk", "Release", 0, 0, 0, true⟩,
+   .ret 0 "0" "err:Msg"]
+
+/-- one thread: `reg:0` (write-locked); then `unreg:0`: the read-locked lookup finds the collector, the
+    read lock is released, the collector is removed under the write lock, the call returns "ok" -/
+def unregPresentTrace : List Item :=
+  [.call 0 "0" "reg:0",
+   .ev ⟨0, "X", "lk", "Acquire", 0, 0, 0, true⟩, .ev ⟨0, "x", "lk", "Release", 0, 0, 0, true⟩,
+   .ret 0 "0" "ok",
+   .call 0 "1" "unreg:0",
+   .ev ⟨0, "R", "lk", "Acquire", 0, 0, 0, true⟩, .ev ⟨0, "r", "lk", "Release", 0, 0, 0, true⟩,
+   .ev ⟨0, "X", "lk", "Acquire", 0, 0, 0, true⟩, .ev ⟨0, "x", "lk", "Release", 0, 0, 0, true⟩,
+   .ret 0 "1" "ok"]
+
+/-- thread 0 as in `unregPresentTrace`, but thread 1 runs its own (pre-checked, successful) `unreg:0` in
+    the gap between thread 0's read-locked lookup (collector registered) and its write-locked section:
+    the write-locked step decides, thread 0's call returns the error -/
+def unregGapTrace : List Item :=
+  [.call 0 "0" "reg:0",
+   .ev ⟨0, "X", "lk", "Acquire", 0, 0, 0, true⟩, .ev ⟨0, "x", "lk", "Release", 0, 0, 0, true⟩,
+   .ret 0 "0" "ok",
+   .call 0 "1" "unreg:0",
+   .ev ⟨0, "R", "lk", "Acquire", 0, 0, 0, true⟩, .ev ⟨0, "r", "lk", "Release", 0, 0, 0, true⟩,
+   .call 1 "0" "unreg:0",
+   .ev ⟨1, "R", "lk", "Acquire", 0, 0, 0, true⟩, .ev ⟨1, "r", "lk", "Release", 0, 0, 0, true⟩,
+   .ev ⟨1, "X", "lk", "Acquire", 0, 0, 0, true⟩, .ev ⟨1, "x", "lk", "Release", 0, 0, 0, true⟩,
+   .ret 1 "0" "ok",
+   .ev ⟨0, "X", "lk", "Acquire", 0, 0, 0, true⟩, .ev ⟨0, "x", "lk", "Release", 0, 0, 0, true⟩,
+   .ret 0 "1" "err:Msg"]
 
 end Prom.C06
